@@ -45,7 +45,7 @@ var importMap = map[string]string{
 
 // Scope lists the package directories (relative to the repository root) that
 // are transformed for the sim flavour.
-var Scope = []string{".", "internal/util", "internal/cmds", "rueidislock", "rueidisaside", "rueidislimiter", "rueidishook"}
+var Scope = []string{".", "internal/util", "internal/cmds", "rueidislock", "rueidisaside", "rueidislimiter", "rueidishook", "om", "rueidisprob"}
 
 type xf struct {
 	skip    map[ast.Node]bool
